@@ -10,6 +10,7 @@ import numpy as np
 
 from vp import gen, probe, propmodel, refmodels as rm
 from vp import defaults
+from vp import reuse
 
 RULE = ('seeded generator: complex pupil fields 2..20 per side, integers N_r, N_c >= input size (N_r != N_c allowed), '
         'du = lambda*z/(dx*N) per axis, anisotropic dx, oversample 1..3, nested centred windows k1<k2<...<=N, target powers; '
@@ -96,6 +97,7 @@ def install(ctx, lentil):
 
 def workload(ctx, lentil):
     defaults.run(ctx, lentil, 'C05', 'dft:full-period')
+    reuse.run(ctx, lentil, 'C05', 'dft:full-period')
     rng = ctx.rng
     n = ctx.count(90, 700)
     hi = 20 if ctx.tier == 'quick' else 40
